@@ -160,8 +160,21 @@ func (ctx *RootMetricContext) makeResultSet() (resultSet *commonmodels.ResultSet
 			// do expression eval
 			expression.Eval(it)
 
+			fieldValues := expression.ResultSet()
+			hasValue := false
+			for _, values := range fieldValues {
+				if values != nil && !values.IsEmpty() {
+					hasValue = true
+					break
+				}
+			}
+			if !hasValue {
+				// a group without any value(series exists, but no data of the selected fields)
+				// must not take a place in order by/limit.
+				continue
+			}
 			// result order by/limit
-			orderBy.Push(aggregation.NewOrderByRow(it.Tags(), expression.ResultSet()))
+			orderBy.Push(aggregation.NewOrderByRow(it.Tags(), fieldValues))
 		}
 
 		rows := orderBy.ResultSet()
